@@ -83,6 +83,26 @@ func (sl *Slicer) calleeOfInstr(ci ssa.CallInstruction) *ssa.Function {
 // declare edges on which the obligation is met by an axiom.
 // Returns the blocks of a counter-example path, or nil.
 func pathToReturnAvoiding(from ssa.Instruction, done func(ssa.Instruction) bool, skipEdge func(b *ssa.BasicBlock, succ int) bool) []*ssa.BasicBlock {
+	return pathToExitAvoiding(from, done, skipEdge, false)
+}
+
+// pathToExitAvoiding with perInvocation: when from lies in a transparent helper, reaching the helper's
+// own call site again (the caller's loop starts the next invocation) also ends a counter-example
+// path.  Obligations of the form "before this invocation is over" need this when the caller never
+// returns (a `for {}` worker loop): without it no Return is reachable and the obligation would hold
+// vacuously.
+func pathToExitAvoiding(from ssa.Instruction, done func(ssa.Instruction) bool, skipEdge func(b *ssa.BasicBlock, succ int) bool, perInvocation bool) []*ssa.BasicBlock {
+	reentry := map[ssa.Instruction]bool{}
+	if perInvocation {
+		for f, n := from.Parent(), 0; f != nil && n < 8; n++ {
+			c := helperCall(f)
+			if c == nil {
+				break
+			}
+			reentry[c] = true
+			f = c.Parent()
+		}
+	}
 	// The search runs over the control flow of from's function extended by its transparent helpers
 	// (inline.go): a call to such a helper enters the helper's body, a Return of the helper continues
 	// after its only call site.  A Return of any other function ends a counter-example path.
@@ -113,6 +133,9 @@ func pathToReturnAvoiding(from ssa.Instruction, done func(ssa.Instruction) bool,
 			if done(in) {
 				met = true
 				break
+			}
+			if reentry[in] {
+				return st.path
 			}
 			if g := isHelperCall(in); g != nil && len(g.Blocks) > 0 {
 				stack = append(stack, state{g.Blocks[0], 0, append(append([]*ssa.BasicBlock(nil), st.path...), g.Blocks[0])})
@@ -479,4 +502,10 @@ func withCallees(pred func(ssa.Instruction) bool, depth int) func(ssa.Instructio
 func passesOnEdge(b *ssa.BasicBlock, succ int, pred func(ssa.Instruction) bool) bool {
 	last := b.Instrs[len(b.Instrs)-1]
 	return pathToReturnAvoiding(last, withCallees(pred, 0), func(x *ssa.BasicBlock, k int) bool { return x == b && k != succ }) == nil
+}
+
+// passesOnEdgeInv: like passesOnEdge, per invocation of the enclosing transparent helper (see pathToExitAvoiding).
+func passesOnEdgeInv(b *ssa.BasicBlock, succ int, pred func(ssa.Instruction) bool) bool {
+	last := b.Instrs[len(b.Instrs)-1]
+	return pathToExitAvoiding(last, withCallees(pred, 0), func(x *ssa.BasicBlock, k int) bool { return x == b && k != succ }, true) == nil
 }
